@@ -121,11 +121,14 @@ NestedTailCases(t, v) ==
        base |-> Frame(t, pos \o Cat(gs))] : <<j, x>> \in {y \in (1..k) \X ins : isStruct(gs[y[1]].tag)}}
 
 \* the date / time group (TLV 1F0E / 1F0F inside one field): a repeated element is a duplicate naming that element
-DtDate == <<31, 14, 4, 32, 35, 17, 5>>
-DtTime == <<31, 15, 3, 18, 52, 86>>
-DtOrders == << [g |-> <<DtDate, DtTime, DtTime>>, tag |-> 7951], [g |-> <<DtTime, DtDate, DtTime>>, tag |-> 7951],
-               [g |-> <<DtTime, DtTime>>, tag |-> 7951], [g |-> <<DtDate, DtDate, DtTime>>, tag |-> 7950],
-               [g |-> <<DtDate, DtTime, DtDate>>, tag |-> 7950], [g |-> <<DtTime, DtDate, DtDate>>, tag |-> 7950] >>
+\* (the values matter: midnight, the first of January of the year 0 - zeros a decoder might take for "not seen yet")
+DtDates == {<<31, 14, 4, 32, 35, 17, 5>>, <<31, 14, 4, 0, 0, 1, 1>>, <<31, 14, 4, 153, 153, 18, 49>>}
+DtTimes == {<<31, 15, 3, 18, 52, 86>>, <<31, 15, 3, 0, 0, 0>>, <<31, 15, 3, 0, 0, 1>>, <<31, 15, 3, 35, 89, 89>>}
+DtOrders == SetToSeq(
+  UNION {{ [g |-> <<d, t1, t2>>, tag |-> 7951], [g |-> <<t1, d, t2>>, tag |-> 7951], [g |-> <<t1, t2>>, tag |-> 7951], [g |-> <<t1, t2, d>>, tag |-> 7951] }
+         : <<d, t1, t2>> \in DtDates \X DtTimes \X DtTimes}
+  \cup UNION {{ [g |-> <<d1, d2, t>>, tag |-> 7950], [g |-> <<d1, t, d2>>, tag |-> 7950], [g |-> <<t, d1, d2>>, tag |-> 7950], [g |-> <<d1, d2>>, tag |-> 7950] }
+         : <<d1, d2, t>> \in DtDates \X DtDates \X DtTimes})
 DtCases(t) ==
   LET tg == TaggedOf(t)
       idx == {i \in 1..Len(tg) : tg[i].kind = "datetime"} IN
